@@ -113,6 +113,7 @@ func c04(r *ev.Result, tier string) {
 		base := ev.Scratch("c04-")
 		c04RealBinary(r, base)
 		c04NetworkChanges(r, base)
+		c04RealQuit(r, base)
 		os.RemoveAll(base)
 	}
 	if !isQuick(tier) {
